@@ -273,7 +273,7 @@ void ContinuationsLite() {
   SSubscribes<SubscribeOn, SharedFutureOn<V, E>, V, E>();
 }
 template void Continuations<void, StopError, int>();
-template void Continuations<NoDefault, UserError, Pinned>();
+template void ContinuationsLite<NoDefault, UserError, Pinned>();
 template void ContinuationsLite<int, StopError, void>();
 template void ContinuationsLite<std::string, UserError, MoveOnly>();
 template void ContinuationsLite<void, UserError, void>();
@@ -342,8 +342,16 @@ void Runs() {
   static_assert(std::is_same_v<decltype(yaclib::RunShared<E>(Fn<int>{})), SharedFuture<int, E>>);
   static_assert(std::is_same_v<decltype(yaclib::RunShared<E>(Exec(), Fn<int>{})), SharedFutureOn<int, E>>);
 }
+// a user error type: void and one non-default-constructible value type (the error type is only passed through)
+template <typename E>
+void RunsLite() {
+  RunRets<E, void>();
+  RunRets<E, NoDefault>();
+  AsyncContracts<void, E>();
+  AsyncContracts<NoDefault, E>();
+}
 template void Runs<StopError>();
-template void Runs<UserError>();
+template void RunsLite<UserError>();
 
 void RunDefaults() {
   Sink(yaclib::RunShared([] {
